@@ -95,7 +95,7 @@ def one_dir(ctx, res, rng, d):
                 if k == "RID":
                     rids.setdefault(v, []).append(r["path"])
         lctx = {"pages": [p[:-3] for p in files] + ["nosuch", "sub/new"], "zids": sorted(zid_page), "own_zids": sorted(zid_page)[:5],
-                "gids": ["g1", "g2", "G3", "nogid"], "rids": ["r1", "r2", "norid"]}
+                "gids": ["g1", "g2", "G3", "g3", "G1", "nogid"], "rids": ["r1", "r2", "R1", "norid"]}
         # the page holding the line lives at the root of the notes directory or in a sub-directory that also holds a page
         # named like a link target missing at the root (`[[nosuch]]` must still mean <notes dir>/nosuch.zo)
         (zdir / "sub").mkdir(exist_ok=True)
